@@ -55,6 +55,8 @@ def one(d, tier):
 			if pid != meta['property']:
 				continue
 			env = dict(os.environ, VERIF_REPO=str(scratch), VERIF_EVIDENCE_DIR=str(scratch / '_ev'))
+			if '--seed' in sys.argv:
+				env['VERIF_SEED'] = sys.argv[sys.argv.index('--seed') + 1]
 			env.pop('PYTHONPATH', None)
 			c = sh([str(VERIF / 'check'), pid, '--tier', tier], env=env, timeout=7200)
 			res[pid] = c.returncode
